@@ -82,7 +82,9 @@ def worker_main(pid: str, tier: str, seed: int, shard: int, nshards: int, out_pa
         except loop.BudgetExceeded:
             inconclusive.append(f"step budget exceeded in {json.dumps(jsonable(case))[:200]}")
             continue
-        except Exception as exc:  # noqa: BLE001
+        except (KeyboardInterrupt, SystemExit):
+            raise
+        except BaseException as exc:  # noqa: BLE001
             if _through_library(exc, lib_root):
                 # an exception the scenario does not provide for, raised by or passing through library code
                 # (the unchanged tree produces none): a violation, not a harness problem
